@@ -81,7 +81,7 @@ func runWatch(c *Ctx, r *watchRun) {
 		srv.WatchBehave = func(n int, rv string) string {
 			if errs > 0 {
 				errs--
-				return "error"
+				return fakeapi.ConnectError(n)
 			}
 			return "ok"
 		}
